@@ -23,7 +23,7 @@ for rel in ids:
     out = {}
     try:
         for prop in (["C%02d" % i for i in range(1, 21)] if ALL else AREA.get(area, [])):
-            t0 = time.time(); r = sh("cd %s && ./vcheck %s quick" % (HERE, prop))
+            t0 = time.time(); r = sh("cd %s && VERIF_EVIDENCE_DIR=%s/build/evidence_mutants ./vcheck %s quick" % (HERE, HERE, prop))
             sig = [l.strip() for l in r.stdout.splitlines() if l.strip().startswith("signature=")]
             out[prop] = dict(exit=r.returncode, first=(sig[0][:300] if sig else ""), wall_s=round(time.time() - t0, 1))
             if r.returncode != 0: print("%-12s %s ALARM exit=%d %s" % (rel, prop, r.returncode, (sig[0][:220] if sig else r.stdout.strip().splitlines()[-1][:220])), flush=True)
